@@ -7,6 +7,7 @@ import (
 	"net/http"
 	"sort"
 	"strings"
+	"time"
 
 	"github.com/q191201771/lal/pkg/rtmp"
 	"github.com/q191201771/lal/pkg/rtsp"
@@ -136,4 +137,14 @@ func (g *Group) verifDump() string {
 	}
 	fmt.Fprintf(&sb, " pull[static=%d api=%d cnt=%d]", b2i(g.pullProxy.staticRelayPullEnable), b2i(g.pullProxy.apiEnable), g.pullProxy.startCount)
 	return sb.String()
+}
+
+// VerifNowFn, when set, replaces time.Now for pkg/logic (vgen rewrites the selector).
+var VerifNowFn func() time.Time
+
+func verifNow() time.Time {
+	if VerifNowFn != nil {
+		return VerifNowFn()
+	}
+	return time.Now()
 }
